@@ -1672,7 +1672,10 @@ class Engine:
         if len(e.generators) != 1:
             raise Unsupported("nested dict comprehension")
         g = e.generators[0]
-        seq = self.as_seq(self.eval(g.iter, env))
+        it = self.eval(g.iter, env)
+        if isinstance(it, Model) and getattr(it, "dictcomp_ok", False):
+            return it.m_comprehension(self, e, g, env)      # loop rule of the model (e is an ast.DictComp: key / value instead of elt)
+        seq = self.as_seq(it)
         if seq.tail is not None:
             raise Unsupported("dict comprehension over symbolic length")
         out = {}
